@@ -924,6 +924,10 @@ impl<K, V, S, A: Allocator> HashMap<K, V, S, A> {
                 let &mut (ref key, ref mut value) = item.as_mut();
                 if !f(key, value) {
                     self.table.erase(item);
+                    #[cfg(hashbrown_verif)]
+                    if crate::verif::unwinding() {
+                        return;
+                    }
                 }
             }
         }
